@@ -197,6 +197,13 @@ func checkRun(m *projsim.Model, label string, events []projsim.Event, log []proj
 	if nDone != 1 {
 		return fail("rundone-count", "%d RunDone events", nDone)
 	}
+	// did this run report a cyclic dependency? (the error Run returns only names the failed dependency)
+	cyclicRun := false
+	for _, e := range events {
+		if e.Kind == "Failed" && strings.Contains(strings.ToLower(e.Text), "cycl") {
+			cyclicRun = true
+		}
+	}
 	byLabel := map[string][]int{}
 	for i, e := range events {
 		if e.Label != "" && e.Kind != "ModuleLoading" && e.Kind != "ModuleLoadFailed" {
@@ -296,8 +303,18 @@ func checkRun(m *projsim.Model, label string, events []projsim.Event, log []proj
 			}
 		default:
 			// Evaluating Print* (Succeeded|Failed)
+			if cyclicRun && seq[0] == "Evaluating" && strings.Trim(strings.Join(seq[1:], ""), "Print") == "" {
+				// After a cyclic-dependency error Run returns while other targets are still running (an
+				// observation recorded in DESIGN 9.5); one of them - say a body waiting for a child process -
+				// may not have completed when the events are looked at. "Not yet" is not "never".
+				continue
+			}
 			if len(seq) < 2 || seq[0] != "Evaluating" || (seq[len(seq)-1] != "Succeeded" && seq[len(seq)-1] != "Failed") {
-				return fail("event-grammar", "events of %s are %q, want UpToDate | Evaluating Print* (Succeeded|Failed) | Failed", l, s)
+				var all []string
+				for _, e := range events {
+					all = append(all, e.Kind+" "+e.Label)
+				}
+				return fail("event-grammar", "events of %s are %q, want UpToDate | Evaluating Print* (Succeeded|Failed) | Failed (run error %q; all events of the run: %q)", l, s, runErr, all)
 			}
 			for _, k := range seq[1 : len(seq)-1] {
 				if k != "Print" {
@@ -330,16 +347,39 @@ func checkRun(m *projsim.Model, label string, events []projsim.Event, log []proj
 			}
 			if started[l] {
 				want = append(want, t.Prints...)
-				chunks := append([]string{}, t.Emit...)
-				if t.Exec > 0 {
-					// the child's output continues the same stream (a partial last line of the emitted
-					// chunks is completed by the child's first line)
-					chunks = append(chunks, strings.Join(projsim.ExecLines(t.Exec), "\n")+"\n")
-				}
-				want = append(want, expectedLines(chunks)...)
+				want = append(want, expectedLines(t.Emit)...)
 				_ = completed
 			}
-			if strings.Join(got, "\x00") != strings.Join(want, "\x00") || len(got) != len(want) {
+			if started[l] && t.Exec > 0 {
+				// A child process wrote whole lines alternately to its stdout and its stderr. Those are two
+				// streams: each one's lines arrive exactly once and in order, after everything the body
+				// wrote before it started the child; how the two interleave is not claimed.
+				if len(got) < len(want) || strings.Join(got[:len(want)], "\x00") != strings.Join(want, "\x00") {
+					return fail("output-lines", "%s printed %q, want %q first (chunks %q)", l, got, want, t.Emit)
+				}
+				var outs, errs, wantOut, wantErr []string
+				for i, line := range projsim.ExecLines(t.Exec) {
+					if i%2 == 1 {
+						wantErr = append(wantErr, line)
+					} else {
+						wantOut = append(wantOut, line)
+					}
+				}
+				isErr := map[string]bool{}
+				for _, e := range wantErr {
+					isErr[e] = true
+				}
+				for _, line := range got[len(want):] {
+					if isErr[line] {
+						errs = append(errs, line)
+					} else {
+						outs = append(outs, line)
+					}
+				}
+				if strings.Join(outs, "\x00") != strings.Join(wantOut, "\x00") || strings.Join(errs, "\x00") != strings.Join(wantErr, "\x00") {
+					return fail("output-lines", "%s: the child's lines arrived as stdout %q / stderr %q, want %q / %q", l, outs, errs, wantOut, wantErr)
+				}
+			} else if strings.Join(got, "\x00") != strings.Join(want, "\x00") || len(got) != len(want) {
 				return fail("output-lines", "%s printed %q, want %q (chunks %q)", l, got, want, t.Emit)
 			}
 		}
@@ -506,8 +546,11 @@ func gen(t *rapid.T) Case {
 		}
 		if rapid.IntRange(0, 5).Draw(t, "exec") == 5 {
 			// output of a child process: lines alternately on its stdout and stderr
-			m.Targets[i].Exec = rapid.SampledFrom([]int{40, 3, 200, 12}).Draw(t, "execlines")
+			m.Targets[i].Exec = rapid.SampledFrom([]int{40, 3, 4000, 12, 1500}).Draw(t, "execlines")
 			m.Targets[i].ExecTry = rapid.Bool().Draw(t, "exectry")
+			if n := len(m.Targets[i].Emit); n > 0 && !strings.HasSuffix(m.Targets[i].Emit[n-1], "\n") {
+				m.Targets[i].Emit = append(m.Targets[i].Emit, "\n") // the body's own output ends before the child starts
+			}
 		}
 		if rapid.IntRange(0, 19).Draw(t, "ghost") == 7 {
 			// a dependency that names nothing: no such target in an existing package, or a package without a BUILD file
